@@ -293,6 +293,12 @@ func init() {
 	regBridge("unicode/utf8.RuneCountInString", utf8.RuneCountInString)
 	regBridge("unicode/utf8.ValidString", utf8.ValidString)
 	regBridge("unicode/utf8.RuneLen", utf8.RuneLen)
+	regBridge("unicode/utf8.DecodeRuneInString", utf8.DecodeRuneInString)
+	regBridge("unicode/utf8.DecodeLastRuneInString", utf8.DecodeLastRuneInString)
+	regBridge("unicode/utf8.DecodeRune", utf8.DecodeRune)
+	regBridge("unicode/utf8.RuneCount", utf8.RuneCount)
+	regBridge("unicode/utf8.Valid", utf8.Valid)
+	regBridge("unicode/utf8.ValidRune", utf8.ValidRune)
 	// sort.Strings mutates its argument in place
 	regV("sort.Strings", func(m *Machine, g *Goroutine, a []Value) Value {
 		s := a[0].(SliceVal)
